@@ -36,7 +36,11 @@ ShapeMatches(s, sv) ==
                           /\ HasMesh(sv.mesh) = s.mesh
                           /\ \A a \in MeshArrays : s.mesh => sv.mesh[a] # 0
     [] kind = "mesh" -> \A a \in MeshArrays : sv[a] # 0
-    [] kind = "solution" -> Len(sv.frames) = s.nframes /\ SolOK(s)
+    [] kind = "solution" -> /\ Len(sv.frames) = s.nframes /\ SolOK(s) /\ sv.frames[s.cur] # 0
+                            /\ sv.dyn.dt # 0 /\ sv.dyn.time # 0 /\ sv.times # 0 /\ sv.closest # 0
+                            \* a run without a completed step (one frame) has no per-step records at all
+                            /\ (sv.dyn.mu # 0) = (s.probes /\ s.nframes > 1) /\ (sv.dyn.theta # 0) = (s.probes /\ s.nframes > 1)
+                            /\ (sv.dyn.screening_iterations # 0) = (s.screening /\ s.nframes > 1)
 
 TMade == /\ IsEv("made") /\ Materialise(Ev.saved) /\ ShapeMatches(shape, Ev.saved)
 
